@@ -265,9 +265,25 @@ func (c *c09) printMsg(sb *strings.Builder, v PVal, mt string, p *pcfg) {
 				}
 				sb.WriteByte('{')
 				idx := p.r.Perm(len(f.E))
+				// "nulls" documents: a further entry whose value is null, somewhere among the entries (the converter drops such an
+				// entry after it has started to write it)
+				nullAt := -1
+				if p.nulls && p.r.Intn(2) == 0 {
+					nullAt = p.r.Intn(len(idx) + 1)
+				}
+				nullKey := `"zz_null_entry"`
+				if len(f.E) > 0 && f.E[0].K.K != "string" {
+					nullKey = `"123456"`
+					if f.E[0].K.K == "bool" {
+						nullAt = -1
+					}
+				}
 				for j, k := range idx {
 					if j > 0 {
 						sb.WriteByte(',')
+					}
+					if j == nullAt {
+						sb.WriteString(nullKey + ":null,")
 					}
 					e := f.E[k]
 					if e.K.K == "string" {
@@ -278,6 +294,12 @@ func (c *c09) printMsg(sb *strings.Builder, v PVal, mt string, p *pcfg) {
 					sb.WriteByte(':')
 					p.ws(sb)
 					c.printVal(sb, e.V, sf, p)
+				}
+				if nullAt == len(idx) {
+					if len(idx) > 0 {
+						sb.WriteByte(',')
+					}
+					sb.WriteString(nullKey + ":null")
 				}
 				sb.WriteByte('}')
 			}
